@@ -16,10 +16,11 @@ theorem node_beq_refl (n : Node) : (n == n) = true := beq_refl_node n
 /-- the receiver of an instrumented call when it is a literal: it stays where it is -/
 theorem recv_lit (cx : Cx) (lo hi : Nat) (obj' obj : Node) (s : St) (hl : obj'.isLit = true)
     (hE : Er cx lo hi obj' obj) :
-    ∀ σ, cx.ext σ → ∃ X Δ0, eraseAsg σ [] = Δ0 ++ σ ∧ Sim X obj ∧ WinU lo hi s.counter s.counter Δ0 ∧
+    ∀ asg0'', BRgL [] asg0'' → ∀ σ, cx.ext σ → ∃ X Δ0, eraseAsg σ asg0'' = Δ0 ++ σ ∧ Sim X obj ∧ WinU lo hi s.counter s.counter Δ0 ∧
       ∀ Δ2, Avoid s.counter s.counter Δ2 → erase (Δ2 ++ (Δ0 ++ σ)) obj' = (X, Δ2 ++ (Δ0 ++ σ)) := by
-  intro σ hσ
-  obtain ⟨X, Δ, eX, sX, _⟩ := hE σ hσ
+  intro asg0'' ha σ hσ
+  rw [BRgL.nil_inv ha]
+  obtain ⟨X, Δ, eX, sX, _⟩ := hE _ (BRg.refl _) σ hσ
   have hlit : ∀ σ', erase σ' obj' = (obj', σ') := by
     intro σ'; cases obj' <;> simp_all [Node.isLit, erase]
   have : X = obj' := by rw [hlit] at eX; exact (congrArg Prod.fst eX).symm
@@ -29,14 +30,18 @@ theorem recv_lit (cx : Cx) (lo hi : Nat) (obj' obj : Node) (s : St) (hl : obj'.i
 /-- the receiver hoisted into a temporary -/
 theorem recv_temp (cx : Cx) (lo hi : Nat) (obj' obj : Node) (csp : Span) (s s0 : St) (hc : s0.counter = s.counter + 1)
     (hE : Er cx lo hi obj' obj) :
-    ∀ σ, cx.ext σ → ∃ X Δ0, eraseAsg σ ([] ++ [.assign "=" (tempIdent s.counter) (assignRight obj' .expr) csp]) = Δ0 ++ σ ∧
+    ∀ asg0'', BRgL ([] ++ [.assign "=" (tempIdent s.counter) (assignRight obj' .expr) csp]) asg0'' →
+    ∀ σ, cx.ext σ → ∃ X Δ0, eraseAsg σ asg0'' = Δ0 ++ σ ∧
       Sim X obj ∧ WinU lo hi s.counter s0.counter Δ0 ∧
       ∀ Δ2, Avoid s.counter s0.counter Δ2 → erase (Δ2 ++ (Δ0 ++ σ)) (tempIdent s.counter) = (X, Δ2 ++ (Δ0 ++ σ)) := by
-  intro σ hσ
-  obtain ⟨X, Δe, eX, sX, wX⟩ := hE σ hσ
+  intro asg0'' ha σ hσ
+  simp only [List.nil_append] at ha
+  obtain ⟨a'', rfl, ha2⟩ := BRgL.single_inv ha
+  obtain ⟨e'', rfl, he⟩ := tempAssign_BRg_inv ha2
+  obtain ⟨X, Δe, eX, sX, wX⟩ := hE e'' he σ hσ
   refine ⟨X, (s.counter, X) :: Δe, ?_, sX, ?_, ?_⟩
-  · simp only [List.nil_append, eraseAsg, erase_tempAssign]
-    obtain ⟨a, b⟩ := erase_assignRight σ (Δe ++ σ) obj' X .expr eX sX.2.2
+  · simp only [eraseAsg, erase_tempAssign]
+    obtain ⟨a, b⟩ := erase_assignRight σ (Δe ++ σ) e'' X .expr eX sX.2.2
     rw [a, b]; rfl
   · intro p hp
     rcases List.mem_cons.mp hp with hp | hp
@@ -108,6 +113,16 @@ theorem viaTemp_core (σf Δ3 : Env) (t1 : Nat) (ca : String) (csp : Span) (idR 
   rw [erase_call_viaTemp _ _ _ _ _ _ _ _ _ hget, eraseL_cons']
   simp only [erase, hthis, hxs]
 
+theorem noBlk_member {o p : Node} {sp : Span} (ho : noBlk o = true) (hp : noBlk p = true) : noBlk (.member o p sp) = true := by
+  rw [noBlk_eq]
+  simp only [isBlockNode, kids, noBlkL_cons, noBlkL_nil, ho, hp]
+  rfl
+
+theorem noBlk_tempAssign {k : Nat} {r : Node} {sp : Span} (hr : noBlk r = true) : noBlk (.assign "=" (tempIdent k) r sp) = true := by
+  rw [noBlk_eq]
+  simp only [isBlockNode, kids, noBlkL_cons, noBlkL_nil, noBlk_tempIdent, hr]
+  rfl
+
 /-- the method-call form: `(t0 = recv, t1 = t0.m, hook(t1.call(t0, args…), t1, t0, args…))` erases to `recv.m(args…)` -/
 theorem callTail_plain_Er (csi : CsiMethod) (cx : Cx) (lo hi : Nat) (obj' obj : Node) (method : String) (msp : Span)
     (callee' : Node) (cargs' cargs : List Node) (csp : Span) (p2 : Node) (cs2 : Span) (s s0 : St)
@@ -115,8 +130,9 @@ theorem callTail_plain_Er (csi : CsiMethod) (cx : Cx) (lo hi : Nat) (obj' obj : 
     (hw : HypW cx hi s) (hlo : lo ≤ s.counter)
     (hp2 : strip p2 = .pname method Span.dummy)
     (ha : Forall2 (fun a' a => Er cx lo hi a' a ∧ DeepEr cx lo hi a' a) cargs' cargs)
-    (c0 : s.counter ≤ s0.counter) (ta0 : AllTA asg0) (inR : Inert idR)
-    (P0 : ∀ σ, cx.ext σ → ∃ X Δ0, eraseAsg σ asg0 = Δ0 ++ σ ∧ Sim X obj ∧ WinU lo hi s.counter s0.counter Δ0 ∧
+    (c0 : s.counter ≤ s0.counter) (ta0 : AllTA asg0) (inR : Inert idR) (nbR : noBlk idR = true)
+    (P0 : ∀ asg0'', BRgL asg0 asg0'' → ∀ σ, cx.ext σ → ∃ X Δ0, eraseAsg σ asg0'' = Δ0 ++ σ ∧ Sim X obj ∧
+        WinU lo hi s.counter s0.counter Δ0 ∧
         ∀ Δ2, Avoid s.counter s0.counter Δ2 → erase (Δ2 ++ (Δ0 ++ σ)) idR = (X, Δ2 ++ (Δ0 ++ σ))) :
     let R := callTail csi obj' method msp callee' cargs' csp none none idR asg0 s0
     s.counter ≤ R.2.counter ∧ ∀ e1 tag, R.1 = some (e1, tag) →
@@ -139,17 +155,30 @@ theorem callTail_plain_Er (csi : CsiMethod) (cx : Cx) (lo hi : Nat) (obj' obj : 
       (asg0 ++ [.assign "=" (tempIdent s0.counter) (assignRight (Node.member idR (.pname method msp) csp) .expr) csp])
       ([] ++ [exprOrSpread (tempIdent s0.counter) .expr] ++ [.arg none idR]) s1 = RA at hL ⊢
     obtain ⟨⟨xs, asg3, args3⟩, s3⟩ := RA
-    obtain ⟨new, more, ea, eg, ta, inn, c3, A, B⟩ := hL
+    obtain ⟨new, more, ea, eg, ta, inn, nb, c3, A, B⟩ := hL
     dsimp only at ea eg c3 A B ⊢
     refine ⟨by omega, ?_⟩
     intro e1 tag he
     simp only [Option.some.injEq, Prod.mk.injEq] at he
     obtain ⟨rfl, -⟩ := he
     subst ea eg
-    intro σ hσ
-    obtain ⟨X, Δ0, e0, sX, w0, R0⟩ := P0 σ hσ
+    have hnbm : noBlk (Node.member idR (.pname method msp) csp) = true := noBlk_member nbR (noBlk_pname _ _)
+    have hnbArgs : noBlkL ([] ++ [exprOrSpread (tempIdent s0.counter) .expr] ++ [.arg none idR] ++ more) = true := by
+      simp [noBlk_exprOrSpread .expr (noBlk_tempIdent _), noBlk_arg nbR, nb]
+    intro m hbr σ hσ
+    -- what a replacement of nested blocks can have touched
+    obtain ⟨first'', asg3'', rfl, hfirst, hasg⟩ := ddParen_BRg_inv hbr hnbArgs
+    simp only [insertThis] at hfirst
+    obtain ⟨c'', as'', rfl, hcc, has⟩ := hfirst.call_inv
+    obtain ⟨a0'', xs'', rfl, ha0, hxs⟩ := BRgL.cons_inv has
+    rw [BRg_noBlk (noBlk_member (noBlk_tempIdent _) (noBlk_pname _ _)) hcc, BRg_noBlk (noBlk_arg nbR) ha0]
+    obtain ⟨k12, new'', rfl, h12, hnew⟩ := BRgL.append_inv hasg
+    obtain ⟨asg0'', k2, rfl, h0, hk2⟩ := BRgL.append_inv h12
+    obtain ⟨am'', rfl, ham⟩ := BRgL.single_inv hk2
+    rw [BRg_noBlk (noBlk_tempAssign (by simpa [assignRight] using hnbm)) ham]
+    obtain ⟨X, Δ0, e0, sX, w0, R0⟩ := P0 asg0'' h0 σ hσ
     -- after the receiver and the member are bound
-    have hmem : eraseAsg σ (asg0 ++ [.assign "=" (tempIdent s0.counter) (assignRight (Node.member idR (.pname method msp) csp) .expr) csp])
+    have hmem : eraseAsg σ (asg0'' ++ [.assign "=" (tempIdent s0.counter) (assignRight (Node.member idR (.pname method msp) csp) .expr) csp])
         = (s0.counter, Node.member X (.pname method msp) csp) :: (Δ0 ++ σ) := by
       rw [eraseAsg_append, e0]
       simp only [eraseAsg]
@@ -170,11 +199,11 @@ theorem callTail_plain_Er (csi : CsiMethod) (cx : Cx) (lo hi : Nat) (obj' obj : 
       have := hw.h2 _ hb
       dsimp only at this
       omega
-    obtain ⟨Δa, eA, wA⟩ := A _ hσ1
-    obtain ⟨Xs, Δ3, eXs, sXs, wXs⟩ := B _ [] hσ1 (Avoid.nil _ _) (AvoidP.nil _)
+    obtain ⟨Δa, eA, wA⟩ := A new'' hnew _ hσ1
+    obtain ⟨Xs, Δ3, eXs, sXs, wXs⟩ := B new'' xs'' hnew hxs _ [] hσ1 (Avoid.nil _ _) (AvoidP.nil _)
     simp only [List.nil_append] at eXs
-    have hall : AllTA (asg0 ++ [.assign "=" (tempIdent s0.counter) (assignRight (Node.member idR (.pname method msp) csp) .expr) csp] ++ new) := by
-      refine AllTA.append (AllTA.append ta0 ?_) ta
+    have hall : AllTA (asg0'' ++ [.assign "=" (tempIdent s0.counter) (assignRight (Node.member idR (.pname method msp) csp) .expr) csp] ++ new'') := by
+      refine AllTA.append (AllTA.append (ta0.BRg h0) ?_) (ta.BRg hnew)
       intro a ha'
       simp only [List.mem_singleton] at ha'
       subst ha'
@@ -190,12 +219,11 @@ theorem callTail_plain_Er (csi : CsiMethod) (cx : Cx) (lo hi : Nat) (obj' obj : 
         subst ha'
         exact inert_arg inR
     -- the environment in which the call itself is erased
-    have henv : eraseAsg σ (asg0 ++ [.assign "=" (tempIdent s0.counter) (assignRight (Node.member idR (.pname method msp) csp) .expr) csp] ++ new)
+    have henv : eraseAsg σ (asg0'' ++ [.assign "=" (tempIdent s0.counter) (assignRight (Node.member idR (.pname method msp) csp) .expr) csp] ++ new'')
         = Δa ++ ((s0.counter, Node.member X (.pname method msp) csp) :: (Δ0 ++ σ)) := by
       rw [eraseAsg_append, hmem, eA]
     refine ⟨.call (.member X (.pname method msp) csp) Xs csp, Δ3 ++ Δa ++ [(s0.counter, Node.member X (.pname method msp) csp)] ++ Δ0, ?_, ?_, ?_⟩
     · rw [erase_ddParen _ _ _ _ _ _ hinert hall, henv]
-      simp only [insertThis]
       have hget1 : Env.get (Δa ++ ((s0.counter, Node.member X (.pname method msp) csp) :: (Δ0 ++ σ))) s0.counter
           = some (Node.member X (.pname method msp) csp) := by
         rw [Env.get_append_of_notin _ _ _ (by
